@@ -451,6 +451,19 @@ def scn_step_start(T, case):
         T.prove("C09.step.default_start_is_the_validated_initial_vector", T.same(started[0][0], x0))
 
 
+# ------------------------------------------------------------------------------------ user-domain results (shared contract)
+def cases_user_results(tier):
+    from contracts import backtransform
+
+    return backtransform.cases(tier)
+
+
+def scn_user_results(T, case):
+    from contracts import backtransform
+
+    backtransform.scenario(T, case, "C09")
+
+
 SCENARIOS = [
     Scenario("magnitudes_of_fixed_variables_are_finite", _scn_fix, cases_fix_fixed, {"quick": 5, "thorough": 30}),
     Scenario("get_mask_init_samplers", scn_get_mask, cases_get_mask, {"quick": 1, "thorough": 1}),
@@ -461,6 +474,7 @@ SCENARIOS = [
     Scenario("scipy_arguments", scn_scipy, cases_scipy, {"quick": 3, "thorough": 20}),
     Scenario("mask_is_canonical", scn_mask_canonical, cases_mask_canonical, {"quick": 1, "thorough": 1}),
     Scenario("optimizer_step_default_start", scn_step_start, cases_step_start, {"quick": 2, "thorough": 5}),
+    Scenario("user_domain_results", scn_user_results, cases_user_results, {"quick": 3, "thorough": 20}),
 ]
 
 MANIFEST = {
